@@ -14,7 +14,7 @@ RULE = ('each case runs one generated model twice: without stop condition (basel
         'runs. non-trivial = early stop at 1 < k* < N-1; distinct by (sensor, operator, placement, topology)')
 ASSUMPTIONS = ['zones: relative margin > 1e-9 determined; a raw difference <= 2e-12 in the sensed value unit (library absolute tolerance, defect D9 recorded under C05) or a '
                'relative margin <= 1e-9 is near-threshold: stopping there or not are both accepted', 'instant 0 of a fresh run is not checked by the solver (first computed instant after the initial one)']
-HEADLINE = ['cases', 'early_stops', 'full_length_runs', 'prefix_instants_compared', 'sensor_reads_checked', 'continued_cases', 'near_threshold', 'stops_gt', 'stops_ge', 'stops_eq', 'stops_lt', 'stops_le']
+HEADLINE = ['two_stage_cases', 'cases', 'early_stops', 'full_length_runs', 'prefix_instants_compared', 'sensor_reads_checked', 'continued_cases', 'near_threshold', 'stops_gt', 'stops_ge', 'stops_eq', 'stops_lt', 'stops_le']
 VAR = {'enc': 'angular position', 'tach': 'angular speed', 'amp': 'electric current'}
 KIND = {'enc': 'AngularPosition', 'tach': 'AngularSpeed', 'amp': 'Current'}
 PY = {'gt': lambda a, b: a > b, 'ge': lambda a, b: a >= b, 'eq': lambda a, b: a == b, 'lt': lambda a, b: a < b, 'le': lambda a, b: a <= b}
@@ -22,7 +22,7 @@ PY = {'gt': lambda a, b: a > b, 'ge': lambda a, b: a >= b, 'eq': lambda a, b: a 
 
 def floors(tier):
     return {'cases': 500, 'early_stops': 250, 'full_length_runs': 60, 'stops_gt': 25, 'stops_ge': 25, 'stops_eq': 10, 'stops_lt': 25, 'stops_le': 25,
-            'continued_cases': 60, 'sensor_reads_checked': 5000, 'set:nontrivial': 60, 'set:sensor_op_placement': 45}
+            'continued_cases': 60, 'two_stage_cases': 40, 'sensor_reads_checked': 5000, 'set:nontrivial': 60, 'set:sensor_op_placement': 45}
 
 
 def n_cases(tier):
@@ -33,6 +33,110 @@ def execute(spec):
     b = B.build(spec)
     runs = B.run_schedule(b)
     return b, runs, B.extract(b, raw=True)
+
+
+def truth_states(ser, raw, thr, op, kind):
+    thr_si = GEN.qsi(thr)
+    state = []
+    for k in range(len(ser)):
+        v, u = raw[k]
+        vs = ser[k]
+        if u == thr['u']:
+            state.append('T' if PY[op](v, thr['v']) else 'F')
+            continue
+        thr_in_u = SI.convert(kind, thr['v'], thr['u'], u)
+        m = abs(vs - thr_si) / max(abs(vs), abs(thr_si), 1e-300)
+        if m <= 1e-9 or abs(v - thr_in_u) <= 2e-12:
+            state.append('N')
+        else:
+            state.append('T' if PY[op](vs, thr_si) else 'F')
+    return state
+
+
+def two_stage(ctx, i):
+    """run with stop condition A (ends early), then continue with another stop condition B: the continuation must again end
+    at the first instant at which B holds (or run its full length)"""
+    rng = ctx.rng('two', i)
+    case = {'kind': 'twostage', 'index': i}
+    spec = GEN.gen_scenario(rng, dict(p_continue=0.0, p_reset=0.0, n_lo=20, n_hi=70, p_currents=0.8))
+    n = spec['_ref']['n']
+    dt = spec['schedule'][0]['dt']
+    try:
+        b0, r0, t0 = execute(spec)
+    except Exception as ex:
+        ctx.violation('harness:valid-scenario-rejected', {'exception': type(ex).__name__ + ': ' + str(ex)[:200]}, case)
+        return
+    if any(r['exc'] for r in r0):
+        return
+    sensors = ['enc', 'tach'] + (['amp'] if spec['motor']['i0'] is not None else [])
+    sk = rng.choice(sensors)
+    idx = 0 if sk == 'amp' else rng.randrange(len(spec['chain']) + 1)
+    ser, raw = t0.els[idx]['vars'][VAR[sk]], t0.els[idx]['units'][VAR[sk]]
+    N = t0.n
+    if any(not math.isfinite(x) for x in ser):
+        return
+    lo, hi = min(ser), max(ser)
+    span = (hi - lo) or max(abs(hi), 1e-6)
+    op = rng.choice(['gt', 'ge', 'lt', 'le'])
+
+    def thr_at(fr):
+        ku = rng.choice(SI.units(KIND[sk]))
+        return GEN.Q(KIND[sk], (lo + fr * span) / SI.FACT[KIND[sk]][ku], ku)
+    fa = rng.uniform(0.1, 0.6)
+    fb = rng.choice([rng.uniform(0.05, 0.95), 1.6, -0.6])
+    A, Bq = thr_at(fa if op in ('gt', 'ge') else 1 - fa), thr_at(fb if op in ('gt', 'ge') else 1 - fb)
+    sa = truth_states(ser, raw, A, op, KIND[sk])
+    k1 = next((k for k in range(1, N) if sa[k] != 'F'), None)
+    if k1 is None or sa[k1] != 'T' or not (1 <= k1 <= N - 4):
+        ctx.count('two_stage_skipped')
+        return
+    sb = truth_states(ser, raw, Bq, op, KIND[sk])
+    acceptable = []
+    for k in range(k1 + 1, N):
+        if sb[k] == 'N':
+            acceptable.append(k)
+        elif sb[k] == 'T':
+            acceptable.append(k)
+            break
+    else:
+        acceptable.append(N - 1)
+    sp = copy.deepcopy(spec)
+    sp['schedule'] = [{'op': 'run', 'dt': dt, 'T': GEN.mulq(dt, n), 'stop_spec': {'sensor': sk, 'elem': idx, 'op': op, 'thr': A}},
+                      {'op': 'run', 'dt': dt, 'T': GEN.mulq(dt, N - 1 - k1), 'stop_spec': {'sensor': sk, 'elem': idx, 'op': op, 'thr': Bq}}]
+    try:
+        b1, r1, t1 = execute(sp)
+    except Exception as ex:
+        ctx.violation('C16:stopped-run-raised', {'exception': type(ex).__name__ + ': ' + str(ex)[:200]}, case)
+        return
+    if any(r['exc'] for r in r1):
+        ctx.violation('C16:stopped-run-raised', {'exception': [r['exc'] for r in r1]}, case)
+        return
+    ctx.count('cases')
+    ctx.count('evaluations')
+    ctx.count('two_stage_cases')
+    wit = {'stop_A': sp['schedule'][0]['stop_spec'], 'stop_B': sp['schedule'][1]['stop_spec'], 'baseline_instants': N, 'first_true_A': k1,
+           'run1_instants': r1[0]['n1'], 'total_instants': t1.n, 'acceptable_last_indices_B': acceptable[:6]}
+    if r1[0]['n1'] != k1 + 1:
+        ctx.violation('C16:wrong-stop-instant', wit, case)
+        return
+    if (t1.n - 1) not in acceptable:
+        ctx.violation('C16:wrong-stop-instant-in-continuation-after-a-stopped-run', wit, case)
+        return
+    # the continuation recomputes its instants from the previous final time, so time-dependent loads may differ in the last
+    # bits from the single baseline run: prefix compared at 1e-9 here (bit-exact only within one run, see one())
+    for ea, eb in zip(t0.els, t1.els):
+        for v in ea['vars']:
+            sa_, sb_ = ea['vars'][v][:t1.n], eb['vars'].get(v, [])
+            sc = max([abs(x) for x in sa_ if math.isfinite(x)] or [0.0])
+            if len(sb_) != t1.n or any(not (x == y or abs(x - y) <= 1e-9 * max(abs(x), abs(y)) + 1e-9 * sc or (x != x and y != y)) for x, y in zip(sa_, sb_)):
+                ctx.violation('C16:history-not-prefix-of-baseline', dict(wit, element=ea['name'], variable=v), case)
+                return
+    ctx.count('prefix_instants_compared', t1.n)
+    if t1.n < N:
+        ctx.count('early_stops')
+        ctx.count('stops_' + op)
+    else:
+        ctx.count('full_length_runs')
 
 
 def one(ctx, i):
@@ -178,7 +282,9 @@ def one(ctx, i):
 def shard(ctx):
     for i in ctx.my_cases(n_cases(ctx.tier)):
         one(ctx, i)
+    for i in ctx.my_cases(n_cases(ctx.tier) // 4):
+        two_stage(ctx, i)
 
 
 def replay(ctx, case):
-    one(ctx, case['index'])
+    (two_stage if case.get('kind') == 'twostage' else one)(ctx, case['index'])
